@@ -11,7 +11,8 @@
    config allows) and every finite delivery sequence, by induction; none is a bounded sweep.
    The float64 part (last section) is proved for n < 2^45 and is false from about 2^46 on (witness included). *)
 From Coq Require Import NArith List Bool Sorted String.
-From Verif Require Import Model.Epoch Model.EpochFloat Proofs.EpochProofs Proofs.EpochFloatProofs Gen.SourceFacts.
+From Verif Require Gen.GenEpoch.
+From Verif Require Import Base.GoNum Model.Epoch Model.EpochFloat Proofs.EpochProofs Proofs.EpochFloatProofs Gen.SourceFacts Proofs.GenAgreeEpoch.
 Import ListNotations.
 Open Scope N_scope.
 
@@ -165,6 +166,31 @@ Example C18_nonvacuous_float :
   is_notification_required_f 0 n 50 (n / 2) 1 = (true, 1) /\ is_notification_required_f 0 n 50 (n / 2 - 1) 1 = (false, 1).
 Proof. vm_compute. repeat split; try reflexivity; intro H; discriminate H. Qed.
 
+(* ---------------------------------------------------------------------------------------------- *)
+(* the translated Go code                                                                           *)
+(* ---------------------------------------------------------------------------------------------- *)
+
+(* Gen/GenEpoch.v is GENERATED from aggsender/epoch_notifier_per_block.go by tools/go2coq on every run (uint64 arithmetic
+   that wraps, float64 quotients as in the source). One step of the generated `step` is one step of the float model for
+   all starting blocks and block numbers below 2^63 and epoch lengths 1 <= n < 2^63 ... *)
+Theorem C18_generated_step_is_model : forall S0 n P, 1 <= n -> n < I63 -> forall s b, S0 < I63 -> b < I63 ->
+  GenEpoch.step S0 n P (of_st s) b =
+  (let '(s', o) := step_f S0 n P s b in (of_st s', option_map conv_ev o)).
+Proof. exact step_agree. Qed.
+
+(* ... hence THE PROPERTY HOLDS OF THE TRANSLATED CODE: for every configuration with 1 <= n < 2^45, P < 100 and every
+   delivery sequence of block numbers below 2^63, the loop over the generated `step` publishes exactly
+   (first qualifying block, epoch) for every epoch that has a qualifying delivery, once, in order *)
+Theorem C18_generated_code_outputs_characterised : forall S0 n P, 1 <= n -> n < 2 ^ 45 -> P < 100 -> S0 < I63 ->
+  forall bs, Forall (fun b => b < I63) bs ->
+  gen_run S0 n P (of_st (init S0 n)) bs = expected S0 n P bs.
+Proof. exact gen_run_is_expected. Qed.
+
+Example C18_generated_nonvacuous :
+  gen_run 5 10 50 (of_st (init 5 10)) [6; 9; 12; 14; 16; 19; 30; 34; 100] = [(12, 1); (30, 3); (100, 10)] /\
+  Forall (fun b => b < I63) [6; 9; 12; 14; 16; 19; 30; 34; 100].
+Proof. split; [vm_compute; reflexivity | repeat constructor]. Qed.
+
 Print Assumptions C18_ref_epoch_meaning.
 Print Assumptions C18_last_block_always_qualifies.
 Print Assumptions C18_is_notification_required_closed_form.
@@ -179,3 +205,5 @@ Print Assumptions C18_not_new_block_is_ignored.
 Print Assumptions C18_float_threshold_agrees.
 Print Assumptions C18_float_run_agrees.
 Print Assumptions C18_float_differs_beyond.
+Print Assumptions C18_generated_step_is_model.
+Print Assumptions C18_generated_code_outputs_characterised.
